@@ -226,6 +226,12 @@ def run_variant(ctx, v, reqs, model, sanitize=False):
                 try: r2 = s.roundtrip(render_http(low, v), src=rq["peer"])
                 except OSError: r2 = b""
                 if monitor(low, r2) is None and not any(marker(t) in r2 for t in URLCOND): klass = "url-condition-letter-case"
+            if why and klass is None and rq["xff"] is not None and not re.search(rb"[0-9A-Fa-f:]", effective_client(rq)):
+                # the hop the trusted peer reported carries no address at all ("unknown"): is that hop simply skipped?  the same chain with a real address in its place
+                fixed = dict(rq, xff=b", ".join(b"203.0.113.9" if not re.search(rb"[0-9A-Fa-f:]", h) else h for h in [x.strip() for x in rq["xff"].split(b",")]))
+                try: r2 = s.roundtrip(render_http(fixed, v), src=rq["peer"])
+                except OSError: r2 = b""
+                if monitor(fixed, r2) is None and not any(marker(t) in r2 for t in IPONLY): klass = "xff-hop-without-address-skipped"
             mons.append((why, klass) if why else None)
             if not s.alive(): break
         alive = s.alive()
@@ -272,7 +278,7 @@ def run(ctx):
             dist[ci.split(":")[0]] = dist.get(ci.split(":")[0], 0) + 1
             if ci.startswith("200:"): served += 1
             if why:
-                key = "c03:" + v["name"] + ":" + (klass or re.sub(r"b'[^']*'|b\"[^\"]*\"|'[^']*'|\d+", "#", why)[:60])
+                key = "c03:" + ("" if klass == "xff-hop-without-address-skipped" else v["name"] + ":") + (klass or re.sub(r"b'[^']*'|b\"[^\"]*\"|'[^']*'|\d+", "#", why)[:60])
                 ctx.violate(key, "C03 fails on the implementation (%s configuration): %s" % (v["name"], why),
                             dict(kind="monitor", variant=v["name"], request=enc_req(rq), response_head=rs[:300].decode("latin-1"), why=why))
                 if not any(k == key for k, _ in ctx.known): found = True
